@@ -36,7 +36,6 @@ type c17Err struct {
 	mk   func(op string, local, remote net.Addr) error
 }
 
-
 func c17Errors() []c17Err {
 	var out []c17Err
 	errnos := []syscall.Errno{syscall.ECONNRESET, syscall.ECONNREFUSED, syscall.ECONNABORTED, syscall.EHOSTUNREACH, syscall.EPIPE, syscall.ETIMEDOUT, syscall.ENETUNREACH, syscall.ENETDOWN, syscall.ENOBUFS, syscall.ENOTCONN, syscall.EINVAL, syscall.EIO}
@@ -54,9 +53,15 @@ func c17Errors() []c17Err {
 	}
 	out = append(out, c17Err{"io.EOF", func(string, net.Addr, net.Addr) error { return io.EOF }})
 	out = append(out, c17Err{"io.ErrUnexpectedEOF", func(string, net.Addr, net.Addr) error { return io.ErrUnexpectedEOF }})
-	out = append(out, c17Err{"net.ErrClosed:OpError", func(op string, l, r net.Addr) error { return &net.OpError{Op: op, Net: "tcp", Source: l, Addr: r, Err: net.ErrClosed} }})
-	out = append(out, c17Err{"deadline:OpError", func(op string, l, r net.Addr) error { return &net.OpError{Op: op, Net: "tcp", Source: l, Addr: r, Err: os.ErrDeadlineExceeded} }})
-	out = append(out, c17Err{"timeout:OpError", func(op string, l, r net.Addr) error { return &net.OpError{Op: op, Net: "tcp", Source: l, Addr: r, Err: vconn.Timeout()} }})
+	out = append(out, c17Err{"net.ErrClosed:OpError", func(op string, l, r net.Addr) error {
+		return &net.OpError{Op: op, Net: "tcp", Source: l, Addr: r, Err: net.ErrClosed}
+	}})
+	out = append(out, c17Err{"deadline:OpError", func(op string, l, r net.Addr) error {
+		return &net.OpError{Op: op, Net: "tcp", Source: l, Addr: r, Err: os.ErrDeadlineExceeded}
+	}})
+	out = append(out, c17Err{"timeout:OpError", func(op string, l, r net.Addr) error {
+		return &net.OpError{Op: op, Net: "tcp", Source: l, Addr: r, Err: vconn.Timeout()}
+	}})
 	out = append(out, c17Err{"errors.Join(OpError)", func(op string, l, r net.Addr) error {
 		return errors.Join(errors.New("cleanup failed"), &net.OpError{Op: op, Net: "tcp", Source: l, Addr: r, Err: syscall.ENETDOWN})
 	}})
